@@ -217,6 +217,7 @@ class Gen:
             return r.choice(["xs.append(len(ys))", "ys.append(1)", "nest['inner'].append(2)", "hero['hp'] = hero['hp'] - 1",
                              "party[0]['hp'] = party[0]['hp'] + 2 if party else 0", "ys = xs", "d['lst'] = ys", "xs.append(3)",
                              "t = str(party[0]['hp']) if party else 'none'", "s = str(nest['inner']) + str(ys) + str(hero)",
+                             "t = str(duo) if 'duo' in _state else 'solo'", "s = str(duo[0]['hp']) + str(len(duo[1])) if 'duo' in _state else s",
                              "ys = list(ys)"])
         if self.p("shared_src"):
             return self.pooled()          # an expression statement whose text is also displayed / tested elsewhere
@@ -464,7 +465,8 @@ class Gen:
                 f"nest = {{'inner': [{r.randint(0, 5)}], 'k': {r.randint(0, 5)}, 'deep': {{'l': []}}}}"]]
             items += [{"k": "stmt", "code": f"n_{vn(n)} = 0", "comment": None} for n in self.names + self.hook_names]
             if self.f.get("alias", 0) > 0:
-                for code, pr in (("ys = xs", 0.6), ("nest['inner'] = xs", 0.5), ("hero = {'hp': 7}", 1.0), ("party = [hero]", 0.8), ("d['lst'] = ys", 0.4)):
+                for code, pr in (("ys = xs", 0.6), ("nest['inner'] = xs", 0.5), ("hero = {'hp': 7}", 1.0), ("party = [hero]", 0.8), ("d['lst'] = ys", 0.4),
+                                 ("duo = (hero, xs)", 0.6), ("fz = frozenset([1, 2])", 0.3)):
                     if r.random() < pr:
                         items.append({"k": "stmt", "code": code, "comment": None})
         items.append({"k": "stmt", "code": f"n_{vn(name)} = n_{vn(name)} + 1", "comment": None})
@@ -488,6 +490,10 @@ class Gen:
                 items.append({"k": "stmt", "code": self.stmt(ints), "comment": ("c " + self.word()) if self.p("comments") else None})
             elif k < 0.5:
                 items.append({"k": "blank"})
+                if r.random() < 0.4:
+                    items += [{"k": "blank"}] * r.randint(1, 2)        # several blank lines in a row
+                if r.random() < 0.4 and self.p("conds") and items and any(it["k"] == "if" for it in items[-6:]):
+                    items.append(self.if_block(idx, 1, ints))          # ... between two blocks
             elif k < 0.62 and self.p("conds"):
                 items.append(self.if_block(idx, 1, ints))
             elif k < 0.72 and self.p("loops"):
